@@ -19,7 +19,7 @@ EXPLANATION = (
     "stderr's constructor receives stdout's child end. (W5/W6) the child-side install code interpreted with a descriptor-table "
     "model over all 68 layouts of the three handles on descriptors 0, 1, 2 or above (exec and fork mode): at exec descriptor "
     "0/1/2 refer to the object given for stdin/stdout/stderr with close-on-exec clear. Not decided: identity of kernel objects "
-    "at run time beyond this name/position/provenance agreement. As built also: (W4t) on every path reaching process_start each child end is of the kind validation decided for that stream, and stderr shares stdout's descriptor only for the 'stdout' type; (W7/W7s) in the forked child of a fork-mode start no child end is closed by number while that number may be 0, 1 or 2, and no stale parent-end number is closed; (W2c) the number fileno() gives for a parent stream is used only after the descriptor has been established open - the three sites of this rule are the recorded finding F16 (see known_findings.json); the reproc++ redirect enumerators equal the C ones (C19.F2).")
+    "at run time beyond this name/position/provenance agreement. As built also: (W4t) on every path reaching process_start each child end is of the kind validation decided for that stream, and stderr shares stdout's descriptor only for the 'stdout' type; (W7/W7s) in the forked child of a fork-mode start no child end is closed by number while that number may be 0, 1 or 2, and no stale parent-end number is closed; (W2c) the number fileno() gives for a parent stream is used only after the descriptor has been established open - the three sites of this rule are the recorded finding F16 (see known_findings.json); the reproc++ redirect enumerators equal the C ones (C19.F2). For every valid redirect description redirect_init fails only where a library call failed (W2n); the null device replaces the parent's stream only when fileno failed or a probe found the descriptor closed (W2d).")
 ASSUMPTIONS = [
     "clang 14 parser/CFG and the fact extractor are correct",
     "dup2(a, b) with a != b makes b refer to a's object with FD_CLOEXEC clear and is a no-op for a == b; fcntl(F_DUPFD_CLOEXEC, min) "
